@@ -33,6 +33,20 @@ SENS = [("MC_Json8259_dev_%s.cfg" % d, d) for d in DEVS] + \
 CHUNK = 30000
 
 
+def jsonl(text):
+    """vlib.parse_jsonl uses str.splitlines(), which also splits at U+2028/U+2029/U+0085 - characters this
+    harness legitimately prints inside JSON strings."""
+    out = []
+    for line in text.split("\n"):
+        line = line.strip(" \r\t")
+        if line.startswith("{"):
+            try:
+                out.append(json.loads(line))
+            except Exception:
+                pass
+    return out
+
+
 def text_of(cps):
     return "".join(chr(c) if c < 0xD800 or c > 0xDFFF else "�" for c in cps)
 
@@ -45,15 +59,15 @@ def tlc_space(cfg, workers, wid):
 def enum_replay(jb, r, limit):
     data = "\n".join(json.dumps(x, separators=(",", ":")) for x in r.prints) + "\n"
     p = run_bin(jb, ["enum", str(limit)], stdin_data=data, timeout=2400)
-    res = [x for x in parse_jsonl(p.stdout) if x.get("summary")]
+    res = [x for x in jsonl(p.stdout) if x.get("summary")]
     if p.returncode != 0 or not res:
-        raise ToolError("json enum failed rc=%s: %s" % (p.returncode, p.stderr[-1500:]))
+        raise ToolError("json enum failed rc=%s (%d vectors): stderr=%s stdout=%s" % (p.returncode, len(r.prints), p.stderr[-1500:], p.stdout[:600]))
     return res[0]
 
 
 def trace_validate(path, cfg="Trace_Json8259.cfg", wid="c13t"):
     """Validate an ndjson log with TLC, in chunks. Returns (records, [(line_index, why)], [TLCResult])."""
-    lines = [l for l in open(path).read().splitlines() if l.strip()]
+    lines = [l for l in open(path).read().split("\n") if l.strip()]
     chunks = [lines[i:i + CHUNK] for i in range(0, len(lines), CHUNK)] or [[]]
     rejected, runs = [], []
 
@@ -136,7 +150,7 @@ def run(tier, replay):
     wd = vlib.workdir("C13")
 
     p = run_bin(jb, ["probe"])
-    pr = parse_jsonl(p.stdout)
+    pr = jsonl(p.stdout)
     if p.returncode != 0 or not pr:
         raise ToolError("json probe failed: " + p.stderr[-500:])
     limit = pr[0]["limit"]
@@ -160,7 +174,7 @@ def run(tier, replay):
         raise ToolError("json docs failed: " + p.stderr[-1000:])
     with open(docs_path, "w") as f:
         f.write(p.stdout)
-    docs_sum = [x for x in parse_jsonl(p.stderr) if x.get("summary")][0]
+    docs_sum = [x for x in jsonl(p.stderr) if x.get("summary")][0]
     n_ser, per, every = (20000, 3, 2) if thorough else (10000, 2, 4)
     ser_path = os.path.join(wd, "ser.ndjson")
     p = run_bin(jb, ["ser", str(n_ser), str(per), str(every)])
@@ -168,7 +182,7 @@ def run(tier, replay):
         raise ToolError("json ser failed: " + p.stderr[-1000:])
     with open(ser_path, "w") as f:
         f.write(p.stdout)
-    ser_sum = [x for x in parse_jsonl(p.stderr) if x.get("summary")][0]
+    ser_sum = [x for x in jsonl(p.stderr) if x.get("summary")][0]
 
     # TLC: the big space (5 workers) || the other spaces (1) || small/sensitivity/trace validation (<= 2): 8 in total
     with cf.ThreadPoolExecutor(max_workers=4) as ex:
@@ -202,6 +216,7 @@ def run(tier, replay):
     # 2. spaces: model checking + vector replay
     all_first = []
     acc_total = 0
+    nontrivial_texts = set()
     for name, cfg, r, s in main + side:
         ctx.add_tlc("%s: model of the code vs RFC 8259 on every string, accepted set printed (%s)" % (name, cfg), r)
         ctx.require_tlc_ok(cfg, r)
@@ -218,9 +233,11 @@ def run(tier, replay):
             raise ToolError("vacuity guard: %s explored %d states, expected %d" % (cfg, r.distinct, sum(na ** k for k in range(s["maxlen"] + 1))))
         acc_total += acc
         ctx.cov["evaluations"] += s["evaluations"]
-        ctx.cov["distinct_nontrivial"] += s["nontrivial"]
+        for x in r.prints:                      # distinct accepted texts of >= 2 tokens, across all spaces
+            if isinstance(x, dict) and "t" in x and len(x["t"]) >= 2:
+                nontrivial_texts.add("".join(s["alphabet"][k - 1] for k in x["t"]))
         ctx.cov["traces_validated_against_impl"] += s["strings"]
-        for x in s["samples"][:2]:
+        for x in s["samples"][2:3]:
             ctx.sample({"space": name, **x})
         ctx.add_part("vectors: " + name, alphabet=s["alphabet"], maxlen=s["maxlen"], strings=s["strings"],
                      accepted_by_spec=acc, depths_of_accepted=depths, either_outcome_allowed=s["either"],
@@ -250,6 +267,7 @@ def run(tier, replay):
         ctx.add_tlc("trace validation: documents and mutants (%d records)" % (t.generated - 1), t)
     for t in ser_runs:
         ctx.add_tlc("trace validation: serialiser outputs (%d records)" % (t.generated - 1), t)
+    ctx.cov["distinct_nontrivial"] += len(nontrivial_texts)
     distinct_docs = len(set(doc_lines))
     ctx.cov["evaluations"] += sum(l.count('"d":') + 1 for l in doc_lines) + ser_sum["outputs"] + len(ser_lines)
     ctx.cov["traces_validated_against_impl"] += len(doc_lines) + len(ser_lines)
